@@ -4,6 +4,7 @@ the abstract level (per-file outcome, diagnostic class, artifacts, assertion log
 trace events).  Orchestration only: every expectation comes out of the REPLAY
 line TLC printed."""
 import concurrent.futures as cf
+import hashlib
 import json
 import os
 import re
@@ -15,7 +16,7 @@ from . import common as C
 FMTS = ["json", "yaml", "yamlmulti", "toml", "xml", "env", "flags", "exec"]   # Build.tla Fmts
 EXT_OF = ["json", "yaml", "yaml", "toml", "xml", "env", "txt", "sh"]          # Build.tla ExtOf (published table)
 
-INVARIANTS = ("ResolveRelToFile EvalOnce SameValue CycleIsDiagnostic VerdictIffAsserts ExitIffFail "
+INVARIANTS = ("ResolveRelToFile EvalOnce EvalOrder SameValue CycleIsDiagnostic VerdictIffAsserts ExitIffFail "
               "EachAssertOnce OneArtifact SecondOutIsError AllOrNothing BatchEqualsSolo Emit")
 
 # open findings <-> deviations of Build.tla (the trace specification runs with the
@@ -30,10 +31,24 @@ DEV_OF_KEY = {
 }
 
 
+SIBLINGS = ("C09", "C13", "C14", "C16")
+
+
+def reporter(pid):
+    """A Reporter that also knows the open findings recorded under the sibling properties of
+    Build.tla: one defect of the build session (one deviation, one key, one entry in
+    known_findings.jsonl) can break several of the four properties."""
+    rep = C.Reporter(pid)
+    for other in SIBLINGS:
+        if other != pid:
+            rep.findings += [f for f in C.load_findings(other) if f.get("key") in DEV_OF_KEY]
+    return rep
+
+
 def open_deviations():
     """Deviations whose finding is recorded as open in known_findings.jsonl."""
     devs = set()
-    path = os.path.join(C.VERIF, "known_findings.jsonl")
+    path = os.environ.get("VERIF_FINDINGS") or os.path.join(C.VERIF, "known_findings.jsonl")
     if os.path.exists(path):
         for line in open(path):
             line = line.strip()
@@ -64,12 +79,25 @@ def write_cfg(gd, name, base, deviations=(), emit=True, invariants=None):
 
 def run_config(gd, base, deviations=(), emit=True, invariants=None, workers=6, timeout=1500, coverage=False):
     """Model-check one configuration; returns the TlcResult (REPLAY lines parsed)."""
-    name = "G_%s_%s" % (base, "_".join(sorted(deviations)) or "design")
+    tag = "_".join(sorted(deviations)) or "design"
+    name = "G_%s_%s" % (base, tag)
     devdef = write_cfg(gd, name, base, deviations, emit, invariants)
-    with open(os.path.join(gd, "MCG_Build.tla"), "w") as f:
-        f.write("---- MODULE MCG_Build ----\nEXTENDS MC_Build\nGenDevs == %s\n====\n" % devdef)
-    return C.run_tlc("MCG_Build", name, workers=workers, gendir=gd, timeout=timeout, heap="6g",
+    mod = "MCG_%s" % hashlib.sha1(devdef.encode()).hexdigest()[:8]
+    with open(os.path.join(gd, mod + ".tla"), "w") as f:
+        f.write("---- MODULE %s ----\nEXTENDS MC_Build\nGenDevs == %s\n====\n" % (mod, devdef))
+    return C.run_tlc(mod, name, workers=workers, gendir=gd, timeout=timeout, heap="5g",
                      coverage=coverage, keep_lines=coverage)
+
+
+def run_design_and_deviations(gd, base, opendevs, timeout=1500):
+    """The design (Deviations = {}, all invariants) and, when findings are open, the code as it
+    is (those deviations on, emission only), side by side.  -> (design result, deviation result|None)"""
+    if not opendevs:
+        return run_config(gd, base, timeout=timeout), None
+    with cf.ThreadPoolExecutor(max_workers=2) as ex:
+        a = ex.submit(run_config, gd, base, (), True, None, 3, timeout)
+        b = ex.submit(run_config, gd, base, tuple(sorted(opendevs)), True, "Emit", 3, timeout)
+        return a.result(), b.result()
 
 
 def case_key(case):
@@ -203,7 +231,7 @@ def include_expr(pos, path, i):
     if pos == "moduleOut":
         return ['let n%d = module {} => (%s) { let z = 0; };' % (i, inc), 'let d%d = n%d{};' % (i, i)], "d%d" % i
     if pos == "failMsg":
-        return ['let d%d = fail "FAILMSG:" + %s;' % (i, inc)], None
+        return ['let d%d = fail "FAILMSG:@" %% (%s);' % (i, inc)], None
     if pos == "funcBody":
         return ['let g%d = func (x) => %s;' % (i, inc), 'let d%d = g%d(0);' % (i, i)], "d%d" % i
     if pos == "nested":
@@ -378,8 +406,8 @@ def classify(msg):
         return "NotFound"
     if "Type error:" in msg:
         return "TypeErr"
-    if re.search(r"Nulls are not allowed|ConvertError|TypeFail: (Exec|XML|The command|Xml)|must be a tuple|must be a Tuple", msg):
-        return "Convert"
+    if re.search(r"Nulls are not allowed|ConvertError|TypeFail:|FormatError", msg):
+        return "Convert"      # raised by a converter (runtime.rs:335-337 passes its message through)
     return "Other"
 
 
@@ -462,6 +490,14 @@ def project_test(obs, lay, args):
         files.append({"arg": sg["arg"], "verdict": verdict, "summary": summary, "err": err,
                       "cls": classify(err) if err else "", "entries": entries, "traces": traces_in(sg["lines"])})
     return {"files": files, "head": [h for h in head if h.strip()], "rc": obs.rc, "crashed": obs.crashed}
+
+
+def require_nonvacuous(tag, counts):
+    """Every class of case the check is meant to exercise must occur in the run."""
+    missing = sorted(k for k, v in counts.items() if not v)
+    if missing:
+        raise C.ToolError("%s: vacuous run, no case of: %s (counts %r)" % (tag, ", ".join(missing), counts))
+    C.log("[%s] exercised: %s" % (tag, ", ".join("%s=%d" % kv for kv in sorted(counts.items()))))
 
 
 def pool_map(fn, items, workers=8):
@@ -548,11 +584,19 @@ def validate_traces(gd, runs, nf, deviations, tag, timeout=900):
     r = C.run_tlc(mod, mod, workers=1, gendir=gd, timeout=timeout, dfs=True, keep_lines=True,
                   env_extra={"TRACE": path}, heap="4g")
     info = {"events": n, "runs": len(runs), "cmd": r.cmd, "states": r.distinct or r.generated}
-    rejected = [ln for ln in r.lines if "TRACE-REJECTED" in ln]
+    rej = [i for i, ln in enumerate(r.lines) if "TRACE-REJECTED" in ln]
     accepted = any("TRACE-ACCEPTED" in ln for ln in r.lines)
-    if accepted and not rejected:
+    if accepted and not rej:
         return True, info
-    if rejected:
-        info["rejected"] = rejected[0][:2000]
+    if rej:
+        msg = " ".join(x.strip() for x in r.lines[rej[0]:rej[0] + 14])
+        info["rejected"] = msg[:2500]
+        m = re.search(r"at event\",\s*(\d+)", msg)
+        if m:
+            # show the recorded execution the event belongs to
+            k = int(m.group(1))
+            recs = open(path).read().split("\n")
+            start = max(i for i in range(min(k, len(recs))) if '"ev": "reset"' in recs[i])
+            info["execution"] = recs[start:min(k + 2, len(recs))][:60]
         return False, info
     raise C.ToolError("trace validation did not finish (%s): %s\n%s" % (tag, r.errtext[:3000], "\n".join(r.lines[-30:])))
